@@ -61,7 +61,9 @@ BsStep ==
                        norm |-> ~o.karorder])        \* (with old order on a backspace may discard a waiting sign instead: C14)
 
 \* (reph alphabets: only histories ending in the reph key are emitted, so the last step of a full-length history is that key)
-LastStepOK(v) == (Alphabet \in {"reph", "rephclasses", "rephcons"} /\ Len(h) = Depth - 1) => v = REPH
+LastStepOK(v) == /\ (Alphabet \in {"reph", "rephclasses", "rephcons"} /\ Len(h) = Depth - 1) => v = REPH
+                 \* (class sweep: every pair of class members, followed - thorough tier - by one of the 8 values the chain distinguishes)
+                 /\ (Alphabet = "classes" /\ Len(h) >= 2) => (v = <<>> \/ v \in SmallValues)
 Next == /\ Len(h) < Depth /\ ~s.crash
         /\ ((\E v \in Values : LastStepOK(v) /\ KeyStep(v)) \/ (LastStepOK(<<>>) /\ BsStep))
         /\ UNCHANGED o
